@@ -2,6 +2,1358 @@
 //! colr.rs / colr/closure.rs / cpal.rs / svg.rs / stat.rs / hdmx.rs / vorg.rs / gasp.rs / meta.rs / tables.rs / offset_array.rs helpers
 //! with Model/HandColr.lean (`hc.*` driver commands), on generator-based inputs with truncations and
 //! boundary fields; plus the group's own byte-level oracles.
+//!
+//! Commands (request → canonical response of the real code):
+//!   `hc.colr <table> <gids> | <idxs>`  `Colr::{v0_base_glyph, v1_base_glyph, v1_clip_box}` per gid,
+//!                                      `Colr::{v0_layer, v1_layer}` per index
+//!   `hc.clos <table> <glyph set>`      `v0_closure_glyphs`, `v0_closure_palette_indices`, `v1_closure`
+//!                                      (each set as `<len> <fnv of the members>`)
+//!   `hc.svg <table> <gids>`            `Svg::glyph_data` (document range inside the list's data)
+//!   `hc.hdmx <ng> <table> <sizes>`     `Hdmx::records().len()`, `record_for_size` (record start)
+//!   `hc.vorg <table> <gids>`           `Vorg::vertical_origin_y`
+//!   `hc.meta <table>`                  `DataMapRecord::data` → `Metadata::read_with_args` per record
+//!   `hc.cksum <bytes>`                 `compute_checksum`
+//!   `hc.arr <n> <data> <idxs>`         `AxisValueArray::axis_values()`: `ArrayOfOffsets::{iter, get}`
+//!   `hc.arrn <table> <idxs>`           `SequenceContextFormat1::seq_rule_sets()`:
+//!                                      `ArrayOfNullableOffsets::{iter, get}`
 use super::*;
+use font_types::GlyphId;
+use read_fonts::collections::IntSet;
+use read_fonts::tables::colr::Colr;
+use read_fonts::{FontData, FontRead, ReadError};
 
-pub fn run(_ctx: &mut Ctx) {}
+// ------------------------------------------------------------------------------------------------
+// helpers
+
+/// a table with child tables behind offsets (copy of the builder of hand/layout.rs)
+#[derive(Clone, Default)]
+struct T {
+    b: B,
+    kids: Vec<(usize, u8, T)>,
+}
+
+impl T {
+    fn new() -> T {
+        T::default()
+    }
+    fn off(&mut self, w: u8, kid: T) -> &mut Self {
+        let p = self.b.len();
+        match w {
+            2 => self.b.f16(0),
+            3 => self.b.f24(0),
+            _ => self.b.f32(0),
+        };
+        self.kids.push((p, w, kid));
+        self
+    }
+    fn off24(&mut self, kid: T) -> &mut Self {
+        self.off(3, kid)
+    }
+    fn off32(&mut self, kid: T) -> &mut Self {
+        self.off(4, kid)
+    }
+    fn flat(&self) -> B {
+        let mut out = self.b.clone();
+        for (pos, w, kid) in &self.kids {
+            let kb = kid.flat();
+            let at = out.append(&kb);
+            put_be(&mut out.v, *pos, *w, at as u64);
+        }
+        out
+    }
+}
+
+fn err_str(e: &ReadError) -> String {
+    match e {
+        ReadError::NullOffset => "eNull".into(),
+        ReadError::OutOfBounds => "eO".into(),
+        ReadError::InvalidFormat(f) => format!("eF{f}"),
+        ReadError::InvalidCollectionIndex(i) => format!("eI{i}"),
+        other => format!("e?{other:?}"),
+    }
+}
+
+fn fnv(xs: impl Iterator<Item = u64>) -> (u64, u64) {
+    let mut h = 0xcbf2_9ce4_8422_2325u64;
+    let mut n = 0u64;
+    for x in xs {
+        h = (h ^ x).wrapping_mul(0x0000_0100_0000_01b3);
+        n += 1;
+    }
+    (n, h)
+}
+
+/// `<len> <fnv>` of a set; at most `cap` members are drained (`None` = more than `cap`)
+fn set_str<D: read_fonts::collections::int_set::Domain>(s: &IntSet<D>, cap: u64, f: impl Fn(D) -> u64) -> Option<String> {
+    if s.len() > cap {
+        return None;
+    }
+    let (n, h) = fnv(s.iter().map(f));
+    Some(format!("{n} {h}"))
+}
+
+/// what one evaluation of the real code produced: the canonical response and the group's oracles
+#[derive(Default)]
+struct Out {
+    resp: String,
+    checks: Vec<(&'static str, bool, String)>,
+}
+
+impl Out {
+    fn check(&mut self, name: &'static str, ok: bool, detail: impl FnOnce() -> String) {
+        self.checks.push((name, ok, if ok { String::new() } else { detail() }));
+    }
+}
+
+/// one correspondence case: the real code inside `catch`, its oracles, then `ctx.case`
+fn ask(ctx: &mut Ctx, req: String, bytes: &[u8], f: impl FnOnce() -> Out) {
+    PROGRESS.fetch_add(1, Ordering::Relaxed);
+    ctx.count(&format!("cases.{}", req.split(' ').next().unwrap_or("")));
+    match catch(f) {
+        Ok(out) => {
+            ctx.oracle("no-panic", true, String::new, String::new);
+            for (name, ok, detail) in out.checks {
+                ctx.oracle(name, ok, || format!("{req} [{}]", hex(bytes)), || detail.clone());
+            }
+            ctx.case(req, out.resp);
+        }
+        Err(m) => ctx.oracle("no-panic", false, || format!("{req} [{}]", hex(bytes)), || format!("panicked: {m}")),
+    }
+}
+
+/// the base, every prefix, every registered field at its boundary values, a few random flips
+fn variants(rng: &mut Rng, b: &B, flips: usize) -> Vec<Vec<u8>> {
+    variants_of(rng, b, flips, true)
+}
+
+/// `dense = false`: the reduced set of boundary values per field (large tables with many fields)
+fn variants_of(rng: &mut Rng, b: &B, flips: usize, dense: bool) -> Vec<Vec<u8>> {
+    let n = b.v.len();
+    let mut out = vec![b.v.clone()];
+    for c in 0..n {
+        out.push(b.v[..c].to_vec());
+    }
+    for (p, w) in &b.fields {
+        if p + *w as usize > n {
+            continue;
+        }
+        let max: u64 = (1u64 << (8 * *w as u32)) - 1;
+        let cur = get_be(&b.v, *p, *w);
+        let rest = (n - p) as u64;
+        let mut vals = if dense {
+            vec![0u64, 1, 2, max, max - 1, max / 2, max / 2 + 1, cur.wrapping_add(1), cur.wrapping_sub(1), cur.wrapping_mul(2), n as u64, n as u64 + 1, (n as u64).wrapping_sub(1), rest, rest + 1, rest.wrapping_sub(1)]
+        } else {
+            vec![0u64, 1, max, max - 1, cur.wrapping_add(1), cur.wrapping_sub(1), n as u64, rest, rest + 1]
+        };
+        for v in vals.iter_mut() {
+            *v &= max;
+        }
+        vals.sort();
+        vals.dedup();
+        for v in vals {
+            if v == cur {
+                continue;
+            }
+            let mut m = b.v.clone();
+            put_be(&mut m, *p, *w, v);
+            out.push(m);
+        }
+    }
+    for _ in 0..flips {
+        if n == 0 {
+            break;
+        }
+        let mut m = b.v.clone();
+        for _ in 0..1 + rng.below(3) {
+            let p = rng.below(n as u64) as usize;
+            m[p] = match rng.below(4) {
+                0 => 0,
+                1 => 0xFF,
+                2 => m[p] ^ (1 << rng.below(8)),
+                _ => rng.next() as u8,
+            };
+        }
+        out.push(m);
+    }
+    out
+}
+
+fn be16(b: &[u8], p: usize) -> Option<u16> {
+    Some(u16::from_be_bytes([*b.get(p)?, *b.get(p.checked_add(1)?)?]))
+}
+
+fn be32(b: &[u8], p: usize) -> Option<u32> {
+    Some(((be16(b, p)? as u32) << 16) | be16(b, p.checked_add(2)?)? as u32)
+}
+
+// ------------------------------------------------------------------------------------------------
+// COLR generator (compact version of the one in hand/layout.rs)
+
+struct PaintEnv {
+    n_layers: u32,
+    base_gids: Vec<u16>,
+}
+
+fn var_base(rng: &mut Rng) -> u32 {
+    match rng.below(20) {
+        0 | 4 => 0xFFFF_FFFF,
+        1 => 0xFFFF_FFFE,
+        2 => 0xFFFF_FFFF - rng.below(8) as u32,
+        3 => 0,
+        _ => rng.below(200) as u32,
+    }
+}
+
+fn color_line(rng: &mut Rng, var: bool) -> T {
+    let mut t = T::new();
+    t.b.u8(*rng.pick(&[0u8, 1, 2]));
+    let n = rng.below(3) as u16;
+    t.b.f16(n);
+    for _ in 0..n {
+        t.b.u16(rng.next() as u16).u16(*rng.pick(&[0u16, 1, 2, 7, 0xFFFF])).u16(0x4000);
+        if var {
+            t.b.u32(var_base(rng));
+        }
+    }
+    t
+}
+
+fn words(rng: &mut Rng, b: &mut B, n: usize) {
+    for _ in 0..n {
+        b.u16(rng.next() as u16);
+    }
+}
+
+/// one paint of format `fmt` (children generated recursively, depth limited)
+fn paint_fmt(rng: &mut Rng, fmt: u8, depth: u32, env: &PaintEnv) -> T {
+    let mut t = T::new();
+    t.b.u8(fmt);
+    let child = |rng: &mut Rng| -> T {
+        if depth >= 2 {
+            let f = *rng.pick(&[2u8, 3, 11, 1]);
+            paint_fmt(rng, f, depth + 1, env)
+        } else {
+            paint(rng, depth + 1, env)
+        }
+    };
+    let var = fmt % 2 == 1 && fmt >= 3;
+    match fmt {
+        1 => {
+            let n = rng.below(4) as u8;
+            let first = match rng.below(16) {
+                0 => 0xFFFF_FFFF,
+                1 => 0xFFFF_FFFF - rng.below(4) as u32,
+                2 | 3 => env.n_layers,
+                _ => rng.below(env.n_layers as u64 + 1) as u32,
+            };
+            t.b.f8(if rng.chance(1, 10) { 255 } else { n }).f32(first);
+        }
+        2 | 3 => {
+            t.b.u16(*rng.pick(&[0u16, 1, 5, 0xFFFF])).u16(0x4000);
+        }
+        4 | 5 | 6 | 7 => {
+            t.off24(color_line(rng, var));
+            words(rng, &mut t.b, 6);
+        }
+        8 | 9 => {
+            t.off24(color_line(rng, var));
+            words(rng, &mut t.b, 4);
+        }
+        10 => {
+            let c = child(rng);
+            t.off24(c);
+            t.b.u16(rng.below(60) as u16);
+        }
+        11 => {
+            // PaintColrGlyph: mostly an existing base glyph (cycles included)
+            let g = if env.base_gids.is_empty() || rng.chance(1, 5) { rng.below(60) as u16 } else { *rng.pick(&env.base_gids) };
+            t.b.f16(g);
+        }
+        12 | 13 => {
+            let c = child(rng);
+            t.off24(c);
+            let mut aff = T::new();
+            words(rng, &mut aff.b, 12);
+            if var {
+                aff.b.u32(var_base(rng));
+            }
+            t.off24(aff);
+            return t;
+        }
+        32 => {
+            let c = child(rng);
+            t.off24(c);
+            t.b.u8(rng.below(30) as u8);
+            let c = child(rng);
+            t.off24(c);
+        }
+        14..=31 => {
+            let c = child(rng);
+            t.off24(c);
+            let n = match fmt {
+                14 | 15 | 16 | 17 | 28 | 29 => 2,
+                18 | 19 | 30 | 31 => 4,
+                20 | 21 | 24 | 25 => 1,
+                _ => 3,
+            };
+            words(rng, &mut t.b, n);
+        }
+        _ => {
+            t.b.bytes(&rng.bytes(6));
+        }
+    }
+    if var {
+        t.b.f32(var_base(rng));
+    }
+    t
+}
+
+fn paint(rng: &mut Rng, depth: u32, env: &PaintEnv) -> T {
+    let fmt = match rng.below(12) {
+        0 => *rng.pick(&[0u8, 33, 34, 255]),
+        1 | 2 => 1,
+        3 | 4 => 11,
+        5 => 10,
+        6 => 32,
+        7 => 2 + rng.below(2) as u8,
+        _ => 1 + rng.below(32) as u8,
+    };
+    paint_fmt(rng, fmt, depth, env)
+}
+
+/// glyph ids of a record array: sorted distinct / sorted with duplicates / unsorted
+fn gid_list(rng: &mut Rng, n: usize, order: u32) -> Vec<u16> {
+    let mut v: Vec<u16> = (0..n).map(|_| if rng.chance(1, 10) { *rng.pick(&[0u16, 0xFFFF, 0xFFFE]) } else { rng.below(24) as u16 }).collect();
+    match order {
+        0 => {
+            v.sort();
+            v.dedup();
+        }
+        1 => v.sort(),
+        _ => {}
+    }
+    v
+}
+
+/// (start, end) of clip records: sorted disjoint / overlapping / unsorted, some with `start > end`
+fn clip_ranges(rng: &mut Rng, order: u32) -> Vec<(u16, u16)> {
+    let n = rng.below(4) as usize;
+    let mut out = vec![];
+    let mut at = rng.below(4) as u16;
+    for _ in 0..n {
+        let len = rng.below(4) as u16;
+        out.push((at, at + len));
+        at = at + len + 1 + rng.below(3) as u16;
+    }
+    match order {
+        0 => {}
+        1 => {
+            for r in out.iter_mut() {
+                if rng.chance(1, 2) {
+                    r.1 += rng.below(6) as u16; // overlaps the next
+                }
+                if rng.chance(1, 5) {
+                    *r = (r.1, r.0); // start > end
+                }
+            }
+        }
+        _ => rng.shuffle(&mut out),
+    }
+    if rng.chance(1, 8) {
+        out.push((0xFFF0, 0xFFFF));
+    }
+    out
+}
+
+fn colr_table(rng: &mut Rng, version: u16, order: u32) -> B {
+    let mut t = T::new();
+    t.b.f16(version);
+    let nb = rng.below(5) as usize;
+    let nl = rng.below(5) as u16;
+    let gids = gid_list(rng, nb, order);
+    t.b.f16(gids.len() as u16);
+    if gids.is_empty() && rng.chance(1, 2) {
+        t.b.f32(0);
+    } else {
+        let mut r = T::new();
+        for g in &gids {
+            // first_layer_index + num_layers around the layer count / 0xFFFF
+            let first = match rng.below(8) {
+                0 => 0xFFFF,
+                1 => nl,
+                _ => rng.below(nl as u64 + 1) as u16,
+            };
+            let num = match rng.below(10) {
+                0 => 0xFFFF,
+                1 => nl + 1,
+                _ => rng.below(nl as u64 + 1) as u16,
+            };
+            r.b.f16(*g).f16(first).f16(num);
+        }
+        t.off32(r);
+    }
+    if nl == 0 && rng.chance(1, 2) {
+        t.b.f32(0);
+    } else {
+        let mut r = T::new();
+        for _ in 0..nl {
+            r.b.u16(rng.below(60) as u16).u16(*rng.pick(&[0u16, 1, 2, 9, 0xFFFF]));
+        }
+        t.off32(r);
+    }
+    t.b.f16(nl);
+    if version == 0 {
+        return t.flat();
+    }
+    let np = rng.below(4) as usize;
+    let pg = gid_list(rng, np, order);
+    let n_layers = rng.below(4) as u32;
+    let env = PaintEnv { n_layers, base_gids: pg.clone() };
+    if pg.is_empty() && rng.chance(1, 2) {
+        t.b.f32(0);
+    } else {
+        let mut bl = T::new();
+        bl.b.f32(pg.len() as u32);
+        for g in &pg {
+            bl.b.f16(*g);
+            let p = paint(rng, 0, &env);
+            bl.off32(p);
+        }
+        t.off32(bl);
+    }
+    if n_layers == 0 && rng.chance(1, 2) {
+        t.b.f32(0);
+    } else {
+        let mut ll = T::new();
+        ll.b.f32(n_layers);
+        for _ in 0..n_layers {
+            let p = paint(rng, 1, &env);
+            ll.off32(p);
+        }
+        t.off32(ll);
+    }
+    if rng.chance(1, 5) {
+        t.b.f32(0);
+    } else {
+        let mut cl = T::new();
+        let ranges = clip_ranges(rng, order);
+        cl.b.u8(1).f32(ranges.len() as u32);
+        for (s, e) in ranges {
+            cl.b.f16(s).f16(e);
+            let mut cb = T::new();
+            let f = *rng.pick(&[1u8, 2, 2, 0, 3]);
+            cb.b.u8(f);
+            words(rng, &mut cb.b, 4);
+            if f == 2 {
+                cb.b.u32(var_base(rng));
+            }
+            cl.off24(cb);
+        }
+        t.off32(cl);
+    }
+    t.b.u32(0).u32(0);
+    t.flat()
+}
+
+/// COLR v1 header + BaseGlyphList + LayerList whose offsets point into `paints`
+fn colr_v1_raw(records: &[(u16, u32)], layers: &[u32], paints: &[u8]) -> Vec<u8> {
+    let mut b = B::new();
+    b.u16(1).u16(0).u32(0).u32(0).u16(0);
+    let hdr = 34u32;
+    let bl_len = 4 + 6 * records.len() as u32;
+    let ll_len = 4 + 4 * layers.len() as u32;
+    b.u32(hdr).u32(hdr + bl_len).u32(0).u32(0).u32(0);
+    b.u32(records.len() as u32);
+    for (g, at) in records {
+        b.u16(*g).u32(bl_len + ll_len + at);
+    }
+    b.u32(layers.len() as u32);
+    for at in layers {
+        b.u32(ll_len + at);
+    }
+    b.bytes(paints);
+    b.v
+}
+
+// ------------------------------------------------------------------------------------------------
+// COLR: lookups
+
+fn colr_probe_gids(bytes: &[u8]) -> (Vec<u32>, Vec<usize>) {
+    let mut vals: Vec<u32> = vec![];
+    let mut n0 = 0usize;
+    let mut n1 = 0usize;
+    if let Ok(colr) = Colr::read(FontData::new(bytes)) {
+        n0 = colr.num_layer_records() as usize;
+        if let Some(Ok(recs)) = colr.base_glyph_records() {
+            vals.extend(recs.iter().take(4).map(|r| r.glyph_id().to_u16() as u32));
+            vals.extend(recs.last().map(|r| r.glyph_id().to_u16() as u32));
+        }
+        if let Some(Ok(bl)) = colr.base_glyph_list() {
+            let recs = bl.base_glyph_paint_records();
+            vals.extend(recs.iter().take(4).map(|r| r.glyph_id().to_u16() as u32));
+            vals.extend(recs.last().map(|r| r.glyph_id().to_u16() as u32));
+        }
+        if let Some(Ok(cl)) = colr.clip_list() {
+            for c in cl.clips().iter().take(4) {
+                vals.push(c.start_glyph_id().to_u16() as u32);
+                vals.push(c.end_glyph_id().to_u16() as u32);
+            }
+        }
+        if let Some(Ok(ll)) = colr.layer_list() {
+            n1 = ll.num_layers() as usize;
+        }
+    }
+    let mut gids: Vec<u32> = vec![0, 0xFFFF, 0x1_0000, u32::MAX];
+    for v in vals {
+        for d in [-1i64, 0, 1] {
+            let y = v as i64 + d;
+            if (0..=0xFFFF).contains(&y) {
+                gids.push(y as u32);
+            }
+        }
+    }
+    gids.sort();
+    gids.dedup();
+    gids.truncate(28);
+    let mut idxs: Vec<usize> = vec![0, 1, 2, 3, 4, 0xFFFF, 0x1_0000, u32::MAX as usize, u32::MAX as usize + 1, usize::MAX];
+    for n in [n0, n1] {
+        idxs.extend([n.wrapping_sub(1), n, n + 1]);
+    }
+    idxs.sort();
+    idxs.dedup();
+    (gids, idxs)
+}
+
+fn colr_lookups(bytes: &[u8], gids: &[u32], idxs: &[usize]) -> Out {
+    let mut out = Out::default();
+    let Ok(colr) = Colr::read(FontData::new(bytes)) else {
+        out.resp = "rerr".into();
+        return out;
+    };
+    let len = bytes.len();
+    let n0 = colr.num_layer_records() as usize;
+    let at = |d: FontData| len - d.len();
+    let mut a: Vec<String> = vec![];
+    for g in gids {
+        let gid = GlyphId::new(*g);
+        let v0 = match colr.v0_base_glyph(gid) {
+            Ok(None) => "N".to_string(),
+            Ok(Some(r)) => {
+                out.check("v0-range", r.start <= r.end && r.end - r.start <= 0xFFFF && r.start <= 0xFFFF, || format!("v0_base_glyph({g}) = {r:?}"));
+                // every index of the range is answered by v0_layer without panic: Ok below the layer count, Err above
+                for i in [r.start, r.end.wrapping_sub(1), r.end] {
+                    let l = colr.v0_layer(i);
+                    out.check("v0-layer-in-array", l.is_ok() == (i < n0) || matches!(colr.layer_records(), None | Some(Err(_))), || format!("v0_layer({i}) ok={} with {n0} layer records", l.is_ok()));
+                }
+                format!("{}-{}", r.start, r.end)
+            }
+            Err(e) => err_str(&e),
+        };
+        let v1 = match colr.v1_base_glyph(gid) {
+            Ok(None) => "N".to_string(),
+            Ok(Some((p, _id))) => {
+                let pos = at(p.offset_data());
+                out.check("paint-inside-table", pos < len, || format!("v1_base_glyph({g}) paint at {pos} of {len}"));
+                format!("f{}@{}", p.format(), pos)
+            }
+            Err(e) => err_str(&e),
+        };
+        let cb = match colr.v1_clip_box(gid) {
+            Ok(None) => "N".to_string(),
+            Ok(Some(cb)) => {
+                let pos = at(cb.offset_data());
+                out.check("clipbox-inside-table", pos + 9 <= len, || format!("v1_clip_box({g}) box at {pos} of {len}"));
+                format!("f{}@{}", cb.format(), pos)
+            }
+            Err(e) => err_str(&e),
+        };
+        a.push(format!("{v0},{v1},{cb}"));
+    }
+    let n1 = match colr.layer_list() {
+        Some(Ok(ll)) => ll.num_layers() as usize,
+        _ => 0,
+    };
+    let mut b: Vec<String> = vec![];
+    for i in idxs {
+        let l0 = match colr.v0_layer(*i) {
+            Ok((g, p)) => {
+                out.check("v0-layer-index", *i < n0, || format!("v0_layer({i}) Ok with {n0} records"));
+                format!("{}:{}", g.to_u16(), p)
+            }
+            Err(e) => err_str(&e),
+        };
+        let l1 = match colr.v1_layer(*i) {
+            Ok((p, _id)) => {
+                out.check("v1-layer-index", *i < n1, || format!("v1_layer({i}) Ok with {n1} layers"));
+                format!("f{}@{}", p.format(), at(p.offset_data()))
+            }
+            Err(e) => err_str(&e),
+        };
+        b.push(format!("{l0},{l1}"));
+    }
+    out.resp = format!("{} | {}", join(&a), join(&b));
+    out
+}
+
+// ------------------------------------------------------------------------------------------------
+// COLR: closures
+
+/// total `num_layers` of the v0 records (work of a v0 closure over a set that hits every record)
+fn v0_work(bytes: &[u8]) -> usize {
+    match Colr::read(FontData::new(bytes)).ok().and_then(|c| c.base_glyph_records()) {
+        Some(Ok(recs)) => recs.iter().map(|r| r.num_layers() as usize).sum(),
+        _ => 0,
+    }
+}
+
+fn colr_closures(bytes: &[u8], set: &[u32]) -> Out {
+    let mut out = Out::default();
+    let Ok(colr) = Colr::read(FontData::new(bytes)) else {
+        out.resp = "rerr".into();
+        return out;
+    };
+    let len = bytes.len() as u64;
+    let gs: IntSet<GlyphId> = set.iter().map(|g| GlyphId::new(*g)).collect();
+    let n = gs.len();
+    let nl = colr.num_layer_records() as u64;
+    let mut g0 = IntSet::<GlyphId>::empty();
+    colr.v0_closure_glyphs(&gs, &mut g0);
+    let mut p0 = IntSet::<u16>::empty();
+    colr.v0_closure_palette_indices(&gs, &mut p0);
+    out.check("v0-closure-bounded", g0.len() <= n + nl && p0.len() <= nl, || format!("v0 closure: {} glyphs, {} palette entries from {n} glyphs and {nl} layer records", g0.len(), p0.len()));
+    out.check("v0-closure-superset", gs.iter().all(|g| g0.contains(g)), || "v0_closure_glyphs lost an input glyph".into());
+    let mut g1 = gs.clone();
+    let (mut layers, mut pal, mut vars) = (IntSet::<u32>::empty(), IntSet::<u16>::empty(), IntSet::<u32>::empty());
+    colr.v1_closure(&mut g1, &mut layers, &mut pal, &mut vars);
+    // every paint needs ≥ 3 bytes; a paint adds ≤ 1 glyph, ≤ 255 layers, its colour stops (≥ 6 bytes each), ≤ 6 + 2·stops deltas
+    out.check(
+        "v1-closure-bounded",
+        g1.len() <= n + len && layers.len() <= 255 * len && pal.len() <= len && vars.len() <= 8 * len + 8,
+        || format!("v1 closure: {} glyphs {} layers {} palettes {} variations from {len} bytes", g1.len(), layers.len(), pal.len(), vars.len()),
+    );
+    out.check("v1-closure-superset", gs.iter().all(|g| g1.contains(g)), || "v1_closure lost an input glyph".into());
+    let cap = 1 << 20;
+    let parts = [
+        set_str(&g0, cap, |g| g.to_u32() as u64),
+        set_str(&p0, cap, |p| p as u64),
+        set_str(&g1, cap, |g| g.to_u32() as u64),
+        set_str(&layers, cap, |x| x as u64),
+        set_str(&pal, cap, |x| x as u64),
+        set_str(&vars, cap, |x| x as u64),
+    ];
+    out.resp = parts.iter().map(|p| p.clone().unwrap_or("huge".into())).collect::<Vec<_>>().join(" | ");
+    out
+}
+
+fn colr_cases(ctx: &mut Ctx, what: &str, bytes: &[u8], closures: bool) {
+    let (gids, idxs) = colr_probe_gids(bytes);
+    ask(ctx, format!("hc.colr {} {} | {}", hex(bytes), join(&gids), join(&idxs)), bytes, || colr_lookups(bytes, &gids, &idxs));
+    ctx.count(&format!("{what}.lookups"));
+    if closures {
+        // all small glyphs (+ one beyond u16), unless the v0 records announce a huge number of layers
+        let set: Vec<u32> = if v0_work(bytes) <= 3000 { (0..=26u32).chain([0xFFFE, 0xFFFF, 0x1_0000]).collect() } else { gids.iter().copied().filter(|g| g % 3 == 0).take(2).collect() };
+        ask(ctx, format!("hc.clos {} {}", hex(bytes), join(&set)), bytes, || colr_closures(bytes, &set));
+        ctx.count(&format!("{what}.closures"));
+    }
+}
+
+/// branch distribution of the modelled COLR functions on the unmodified inputs
+fn colr_branches(ctx: &mut Ctx, bytes: &[u8]) {
+    let Ok(colr) = Colr::read(FontData::new(bytes)) else {
+        ctx.count("branch.read.err");
+        return;
+    };
+    let (gids, idxs) = colr_probe_gids(bytes);
+    for g in &gids {
+        let gid = GlyphId::new(*g);
+        let k = match colr.v0_base_glyph(gid) {
+            Ok(None) if *g > 0xFFFF => "none.gid>u16",
+            Ok(None) => "none",
+            Ok(Some(_)) => "some",
+            Err(ReadError::NullOffset) => "err.null",
+            Err(_) => "err.other",
+        };
+        ctx.count(&format!("branch.v0_base_glyph.{k}"));
+        let k = match colr.v1_base_glyph(gid) {
+            Ok(None) if *g > 0xFFFF => "none.gid>u16".to_string(),
+            Ok(None) => "none".into(),
+            Ok(Some(_)) => "some".into(),
+            Err(e) => format!("err.{}", err_str(&e).chars().take(2).collect::<String>()),
+        };
+        ctx.count(&format!("branch.v1_base_glyph.{k}"));
+        let k = match colr.v1_clip_box(gid) {
+            Ok(None) if *g > 0xFFFF => "none.gid>u16".to_string(),
+            Ok(None) => "none".into(),
+            Ok(Some(cb)) => format!("some.f{}", cb.format()),
+            Err(e) => format!("err.{}", err_str(&e).chars().take(2).collect::<String>()),
+        };
+        ctx.count(&format!("branch.v1_clip_box.{k}"));
+    }
+    for i in &idxs {
+        let k = match colr.v0_layer(*i) {
+            Ok(_) => "ok".to_string(),
+            Err(e) => format!("err.{}", err_str(&e)),
+        };
+        ctx.count(&format!("branch.v0_layer.{k}"));
+        let k = match colr.v1_layer(*i) {
+            Ok(_) => "ok".to_string(),
+            Err(e) => format!("err.{}", err_str(&e).chars().take(2).collect::<String>()),
+        };
+        ctx.count(&format!("branch.v1_layer.{k}"));
+    }
+    // paint formats reachable from the base glyph list / layer list
+    if let Some(Ok(bl)) = colr.base_glyph_list() {
+        for r in bl.base_glyph_paint_records() {
+            if let Ok(p) = r.paint(bl.offset_data()) {
+                ctx.count(&format!("branch.root-paint.f{}", p.format()));
+            }
+        }
+    }
+}
+
+fn run_colr(ctx: &mut Ctx) {
+    let k = if ctx.thorough { 5 } else { 1 };
+    for round in 0..14 * k {
+        let version = if round % 5 == 0 { 0 } else { 1 };
+        let order = (round % 3) as u32;
+        let b = colr_table(&mut ctx.rng, version, order);
+        ctx.count(&format!("colr.version{version}.order{order}"));
+        ctx.count_n("colr.bytes", b.len() as u64);
+        colr_branches(ctx, &b.v);
+        let vs = variants_of(&mut ctx.rng, &b, 6, false);
+        for (i, v) in vs.iter().enumerate() {
+            // closures on the base, every second prefix of the tail half, every second field variant / flip
+            colr_cases(ctx, "colr", v, i == 0 || (i > b.len() / 2 && i % 2 == 0));
+        }
+    }
+    // every paint format as root paint and as layer (closure dispatch of each `Paint*::v1_closure`)
+    for fmt in 0..=33u8 {
+        let env = PaintEnv { n_layers: 1, base_gids: vec![3] };
+        let mut t = T::new();
+        t.b.u16(1).u16(0).u32(0).u32(0).u16(0);
+        let mut bl = T::new();
+        bl.b.u32(1).u16(3);
+        let p = paint_fmt(&mut ctx.rng, fmt, 1, &env);
+        bl.off32(p);
+        t.off32(bl);
+        let mut ll = T::new();
+        ll.b.u32(1);
+        let p = paint_fmt(&mut ctx.rng, fmt, 2, &env);
+        ll.off32(p);
+        t.off32(ll);
+        t.b.u32(0).u32(0).u32(0);
+        let b = t.flat();
+        ctx.count(&format!("paint-format.{fmt}"));
+        colr_branches(ctx, &b.v);
+        let vs = variants_of(&mut ctx.rng, &b, 2, false);
+        for (i, v) in vs.iter().enumerate() {
+            // the base, the prefixes that cut the paints, the field variants; lookups on the base only
+            if i == 0 {
+                colr_cases(ctx, "paint", v, true);
+            } else if i > 48 {
+                let set: Vec<u32> = vec![2, 3, 4, 9];
+                ask(ctx, format!("hc.clos {} {}", hex(v), join(&set)), v, || colr_closures(v, &set));
+            }
+        }
+    }
+    // cycles: a base glyph painting itself, two glyphs painting each other, layers that contain their
+    // own PaintColrLayers; 255 layers
+    let mut p = vec![];
+    p.extend_from_slice(&[11, 0, 1]); // @0 ColrGlyph(1)
+    p.extend_from_slice(&[11, 0, 2]); // @3 ColrGlyph(2)
+    p.extend_from_slice(&[11, 0, 1]); // @6 ColrGlyph(1)
+    p.extend_from_slice(&[1, 2, 0, 0, 0, 0]); // @9 ColrLayers(2 layers from 0)
+    p.extend_from_slice(&[10, 0, 0, 6, 0, 9]); // @15 Glyph(paint @21, gid 9)
+    p.extend_from_slice(&[1, 255, 0, 0, 0, 0]); // @21 ColrLayers(255 layers from 0)
+    let cyc = colr_v1_raw(&[(1, 0), (2, 6), (3, 3), (4, 9)], &[9, 15], &p);
+    colr_cases(ctx, "cycle", &cyc, true);
+    // PaintColrLayers at the u32 boundary, var index bases at the boundary
+    for first in [0xFFFF_FFFFu32, 0xFFFF_FFFE, 0xFFFF_FF00, 0, 1, 2] {
+        for num in [0u8, 1, 2, 255] {
+            let mut p = vec![1, num];
+            p.extend_from_slice(&first.to_be_bytes());
+            p.extend_from_slice(&[2, 0, 1, 0x40, 0]); // @6 Solid
+            let v = colr_v1_raw(&[(0, 0)], &[6, 6], &p);
+            colr_cases(ctx, "layers-boundary", &v, true);
+        }
+    }
+    for base in [0xFFFF_FFFFu32, 0xFFFF_FFFE, 0xFFFF_FFFD, 0xFFFF_FFFA, 0, 7] {
+        // PaintVarTranslate(var_index_base = base) → PaintVarSolid(base)
+        let mut p = vec![15, 0, 0, 12, 0, 0, 0, 0];
+        p.extend_from_slice(&base.to_be_bytes());
+        p.extend_from_slice(&[3, 0, 1, 0x40, 0]);
+        p.extend_from_slice(&base.to_be_bytes());
+        let v = colr_v1_raw(&[(0, 0)], &[], &p);
+        colr_cases(ctx, "var-boundary", &v, true);
+    }
+    // chains deeper than the nesting limit of 64
+    for depth in [62usize, 63, 64, 65, 66, 80] {
+        let mut p = Vec::new();
+        for _ in 0..depth {
+            p.extend_from_slice(&[24, 0, 0, 6, 0x10, 0]);
+        }
+        p.extend_from_slice(&[2, 0, 1, 0x40, 0]);
+        let v = colr_v1_raw(&[(0, 0), (1, 6), (2, (6 * (depth - 1)) as u32)], &[0], &p);
+        ctx.count(&format!("chain.{depth}"));
+        colr_cases(ctx, "chain", &v, true);
+    }
+    // v0: num_layers 0xFFFF over few layers (the `start..end` loop far beyond the array)
+    {
+        let mut b = B::new();
+        b.u16(0).u16(3).u32(14).u32(14 + 18).u16(3);
+        for g in 0..3u16 {
+            b.u16(g).u16(if g % 2 == 0 { 0 } else { 0xFFFF }).u16(0xFFFF);
+        }
+        for i in 0..3u16 {
+            b.u16(500 + i).u16(i);
+        }
+        ask(ctx, format!("hc.clos {} 0 1 2 3", hex(&b.v)), &b.v, || colr_closures(&b.v, &[0, 1, 2, 3]));
+        ctx.count("v0wide");
+    }
+}
+
+// ------------------------------------------------------------------------------------------------
+// SVG
+
+use read_fonts::tables::svg::Svg;
+
+fn svg_bytes(rng: &mut Rng) -> B {
+    let n = rng.below(5) as usize;
+    let mut b = B::new();
+    b.u16(0).f32(10).u16(0).u16(0);
+    let list_at = b.len();
+    b.f16(n as u16);
+    let mut start = rng.below(4) as u16;
+    let mut ranges: Vec<(u16, u16)> = vec![];
+    for _ in 0..n {
+        let end = start + rng.below(3) as u16;
+        ranges.push((start, end));
+        start = end + 1 + rng.below(3) as u16;
+    }
+    match rng.below(6) {
+        0 => rng.shuffle(&mut ranges),
+        1 if n > 0 => ranges[n - 1].1 = 0xFFFF,
+        2 if n > 0 => ranges[0] = (ranges[0].1, ranges[0].0), // end < start
+        3 if n > 1 => ranges[1] = ranges[0],                  // duplicate
+        _ => {}
+    }
+    let recs_at = b.len();
+    for (s, e) in &ranges {
+        b.f16(*s).f16(*e).f32(0).f32(0);
+    }
+    for k in 0..n {
+        let doc = rbytes(rng, 6);
+        let rel_off = (b.len() - list_at) as u32;
+        let (off, len) = match rng.below(10) {
+            0 => (rel_off, doc.len() as u32 + 1),     // one beyond the data (last doc)
+            1 => (rel_off + doc.len() as u32, 0),     // empty at the very end
+            2 => (rel_off + doc.len() as u32 + 1, 0), // one past the end
+            3 => (0, 2),                              // the list header itself
+            4 => (rel_off, u32::MAX - rel_off + rng.below(3) as u32), // offset + length around 2^32
+            _ => (rel_off, doc.len() as u32),
+        };
+        b.set32(recs_at + 12 * k + 4, off);
+        b.set32(recs_at + 12 * k + 8, len);
+        b.bytes(&doc);
+    }
+    b
+}
+
+fn svg_gids(b: &[u8]) -> Vec<u32> {
+    let at = be32(b, 2).unwrap_or(0) as usize;
+    let n = be16(b, at).unwrap_or(0) as usize;
+    let mut vals = vec![n as u64];
+    for i in 0..n.min(8) {
+        for d in [0, 2] {
+            if let Some(g) = be16(b, at.saturating_add(2 + 12 * i + d)) {
+                vals.push(g as u64);
+            }
+        }
+    }
+    let mut v: Vec<u32> = vec![0, 0xFFFF, 0x1_0000, u32::MAX];
+    for x in vals {
+        v.extend([x.saturating_sub(1) as u32, x as u32, x as u32 + 1]);
+    }
+    v.sort();
+    v.dedup();
+    v.truncate(24);
+    v
+}
+
+fn svg_eval(bytes: &[u8], gids: &[u32]) -> Out {
+    let mut out = Out::default();
+    let Ok(svg) = Svg::read(FontData::new(bytes)) else {
+        out.resp = join(&gids.iter().map(|_| "rerr").collect::<Vec<_>>());
+        return out;
+    };
+    let list_at = be32(bytes, 2).unwrap_or(0) as usize;
+    let base = bytes.as_ptr() as usize;
+    let mut r: Vec<String> = vec![];
+    for g in gids {
+        r.push(match svg.glyph_data(GlyphId::new(*g)) {
+            Ok(None) => "N".into(),
+            Ok(Some(d)) => {
+                let s = d.as_ptr() as usize - base;
+                out.check("svg-doc-inside-list", s >= list_at && s + d.len() <= bytes.len(), || format!("glyph_data({g}): {}..{} of {}", s, s + d.len(), bytes.len()));
+                format!("{}-{}", s - list_at, s - list_at + d.len())
+            }
+            Err(e) => err_str(&e),
+        });
+    }
+    out.resp = join(&r);
+    out
+}
+
+fn run_svg(ctx: &mut Ctx) {
+    let k = if ctx.thorough { 5 } else { 1 };
+    for _ in 0..9 * k {
+        let b = svg_bytes(&mut ctx.rng);
+        ctx.count("svg.bases");
+        for v in variants(&mut ctx.rng, &b, 6) {
+            let gids = svg_gids(&v);
+            ask(ctx, format!("hc.svg {} {}", hex(&v), join(&gids)), &v, || svg_eval(&v, &gids));
+            // branch distribution
+            if let Ok(svg) = Svg::read(FontData::new(&v)) {
+                for g in &gids {
+                    let key = match svg.glyph_data(GlyphId::new(*g)) {
+                        Ok(Some(_)) => "some",
+                        Ok(None) => "none",
+                        Err(_) => "err",
+                    };
+                    ctx.count(&format!("branch.svg.glyph_data.{key}"));
+                }
+            }
+        }
+    }
+}
+
+// ------------------------------------------------------------------------------------------------
+// hdmx — input `[num_glyphs][table]`
+
+use read_fonts::tables::hdmx::Hdmx;
+
+fn hdmx_bytes(rng: &mut Rng) -> (u16, B) {
+    let ng = rng.below(5) as u16;
+    let natural = 2 + ng as u32;
+    let size = match rng.below(9) {
+        0 => 0,
+        1 => 1,
+        2 => 2,
+        3 => natural.saturating_sub(1),
+        4 => natural + 1,
+        5 => (natural + 3) & !3,
+        _ => natural,
+    };
+    let n = rng.below(7) as u16;
+    let mut b = B::new();
+    b.u16(0).f16(n).f32(size);
+    let mut ppem: Vec<u8> = (0..n).map(|_| rng.below(30) as u8).collect();
+    if rng.chance(3, 4) {
+        ppem.sort();
+    }
+    if rng.chance(1, 4) && n > 0 {
+        ppem[0] = 0;
+        ppem[n as usize - 1] = 255;
+    }
+    for p in ppem {
+        let mut r = vec![p, 9];
+        r.extend((0..ng).map(|g| g as u8 + 1));
+        r.resize(size as usize, 0xEE);
+        b.bytes(&r);
+    }
+    if rng.chance(1, 3) {
+        b.bytes(&rng.bytes(3));
+    }
+    (ng, b)
+}
+
+fn hdmx_eval(bytes: &[u8], ng: u16, sizes: &[u8]) -> Out {
+    let mut out = Out::default();
+    let Ok(hdmx) = Hdmx::read(FontData::new(bytes), ng) else {
+        out.resp = "rerr".into();
+        return out;
+    };
+    let recs = hdmx.records();
+    let base = bytes.as_ptr() as usize + 8;
+    let mut r: Vec<String> = vec![];
+    for s in sizes {
+        r.push(match hdmx.record_for_size(*s) {
+            None => "N".into(),
+            Some(rec) => {
+                let start = rec.widths.as_ptr() as usize - 2 - base;
+                out.check("hdmx-record-matches", rec.pixel_size == *s && bytes.get(8 + start) == Some(s), || format!("record_for_size({s}) → pixel size {}", rec.pixel_size));
+                out.check("hdmx-record-inside", 8 + start + 2 + ng as usize <= bytes.len(), || format!("record_for_size({s}) → record at {start}"));
+                format!("{start}")
+            }
+        });
+    }
+    out.resp = format!("{} {}", recs.len(), join(&r));
+    out
+}
+
+fn run_hdmx(ctx: &mut Ctx) {
+    let k = if ctx.thorough { 5 } else { 1 };
+    for _ in 0..10 * k {
+        let (ng, b) = hdmx_bytes(&mut ctx.rng);
+        ctx.count("hdmx.bases");
+        for v in variants(&mut ctx.rng, &b, 4) {
+            for ng in [ng, ng + 1] {
+                let mut sizes: Vec<u8> = vec![0, 1, 254, 255];
+                if let Ok(h) = Hdmx::read(FontData::new(&v), ng) {
+                    for r in h.records().iter().take(8).flatten() {
+                        sizes.extend([r.pixel_size.wrapping_sub(1), r.pixel_size, r.pixel_size.wrapping_add(1)]);
+                    }
+                    for s in &sizes {
+                        ctx.count(if h.record_for_size(*s).is_some() { "branch.hdmx.found" } else { "branch.hdmx.none" });
+                    }
+                }
+                sizes.sort();
+                sizes.dedup();
+                ask(ctx, format!("hc.hdmx {} {} {}", ng, hex(&v), join(&sizes)), &v, || hdmx_eval(&v, ng, &sizes));
+            }
+        }
+    }
+}
+
+// ------------------------------------------------------------------------------------------------
+// VORG
+
+use read_fonts::tables::vorg::Vorg;
+
+fn vorg_bytes(rng: &mut Rng) -> B {
+    let n = rng.below(7) as u16;
+    let mut gids: Vec<u16> = (0..n).map(|_| if rng.chance(1, 6) { *rng.pick(&[0u16, 0xFFFF, 0xFFFE, 1]) } else { rng.below(30) as u16 }).collect();
+    if rng.chance(3, 4) {
+        gids.sort();
+    }
+    let mut b = B::new();
+    b.u16(1).u16(0).i16(880).f16(n);
+    for (i, g) in gids.iter().enumerate() {
+        b.f16(*g).i16(i as i16 - 3);
+    }
+    b
+}
+
+fn run_vorg(ctx: &mut Ctx) {
+    let k = if ctx.thorough { 5 } else { 1 };
+    for _ in 0..8 * k {
+        let b = vorg_bytes(&mut ctx.rng);
+        ctx.count("vorg.bases");
+        for v in variants(&mut ctx.rng, &b, 4) {
+            let n = be16(&v, 6).unwrap_or(0) as usize;
+            let mut vals: Vec<u64> = vec![n as u64];
+            for i in 0..n.min(12) {
+                if let Some(g) = be16(&v, 8 + 4 * i) {
+                    vals.push(g as u64);
+                }
+            }
+            let mut gids = edge32(&vals);
+            gids.retain(|g| *g <= 0x1_0001 || *g >= 0xFFFF_FFFE);
+            gids.truncate(40);
+            ask(ctx, format!("hc.vorg {} {}", hex(&v), join(&gids)), &v, || {
+                let mut out = Out::default();
+                match Vorg::read(FontData::new(&v)) {
+                    Err(_) => out.resp = "rerr".into(),
+                    Ok(t) => {
+                        let ys: Vec<u16> = gids.iter().map(|g| t.vertical_origin_y(GlyphId::new(*g)) as u16).collect();
+                        let dflt = t.default_vert_origin_y() as u16;
+                        let known: Vec<u16> = t.vert_origin_y_metrics().iter().map(|m| m.vert_origin_y() as u16).collect();
+                        out.check("vorg-value-from-table", ys.iter().all(|y| *y == dflt || known.contains(y)), || format!("{ys:?} not all among {known:?} / {dflt}"));
+                        out.resp = join(&ys);
+                    }
+                }
+                out
+            });
+        }
+    }
+}
+
+// ------------------------------------------------------------------------------------------------
+// meta
+
+use read_fonts::tables::meta::{Meta, Metadata};
+
+fn meta_bytes(rng: &mut Rng) -> B {
+    let n = rng.below(4) as usize;
+    let mut b = B::new();
+    b.u32(1).u32(0).u32(0).f32(n as u32);
+    let recs_at = b.len();
+    for _ in 0..n {
+        let tag: &[u8; 4] = *rng.pick(&[b"dlng", b"slng", b"appl", b"bild"]);
+        b.tag(tag).f32(0).f32(0);
+    }
+    for k in 0..n {
+        let at = b.len();
+        let data: Vec<u8> = match rng.below(5) {
+            0 => vec![],
+            1 => b"en-Latn, fr".to_vec(),
+            2 => b",,".to_vec(),
+            _ => rbytes(rng, 8),
+        };
+        let (off, len) = match rng.below(8) {
+            0 => (at as u32, data.len() as u32 + 1),
+            1 => (at as u32 + data.len() as u32, 0),
+            2 => (at as u32 + data.len() as u32 + 1, 0),
+            3 => (0, data.len() as u32),
+            4 => (at as u32, u32::MAX),
+            _ => (at as u32, data.len() as u32),
+        };
+        b.set32(recs_at + 12 * k + 4, off);
+        b.set32(recs_at + 12 * k + 8, len);
+        b.bytes(&data);
+    }
+    b
+}
+
+fn meta_eval(bytes: &[u8]) -> Out {
+    let mut out = Out::default();
+    let Ok(meta) = Meta::read(FontData::new(bytes)) else {
+        out.resp = "rerr".into();
+        return out;
+    };
+    let base = bytes.as_ptr() as usize;
+    let mut r: Vec<String> = vec![];
+    for rec in meta.data_maps() {
+        r.push(match rec.data(meta.offset_data()) {
+            Err(e) => err_str(&e),
+            Ok(Metadata::Other(d)) => {
+                let s = d.as_ptr() as usize - base;
+                out.check("meta-slice-inside", s + d.len() <= bytes.len(), || format!("{}..{}", s, s + d.len()));
+                format!("{}-{}O", s, s + d.len())
+            }
+            Ok(Metadata::ScriptLangTags(_)) => {
+                // the array wraps exactly the `offset .. offset + length` bytes
+                let (s, l) = (rec.data_offset().to_u32() as usize, rec.data_length() as usize);
+                out.check("meta-slice-inside", s + l <= bytes.len(), || format!("{}..{}", s, s + l));
+                format!("{}-{}L", s, s + l)
+            }
+        });
+    }
+    out.resp = join(&r);
+    out
+}
+
+fn run_meta(ctx: &mut Ctx) {
+    let k = if ctx.thorough { 5 } else { 1 };
+    for _ in 0..10 * k {
+        let b = meta_bytes(&mut ctx.rng);
+        ctx.count("meta.bases");
+        for v in variants(&mut ctx.rng, &b, 4) {
+            if let Ok(meta) = Meta::read(FontData::new(&v)) {
+                for rec in meta.data_maps() {
+                    let key = match rec.data(meta.offset_data()) {
+                        Ok(Metadata::Other(_)) => "other".to_string(),
+                        Ok(Metadata::ScriptLangTags(_)) => "lang".to_string(),
+                        Err(e) => err_str(&e),
+                    };
+                    ctx.count(&format!("branch.meta.data.{key}"));
+                }
+            }
+            ask(ctx, format!("hc.meta {}", hex(&v)), &v, || meta_eval(&v));
+        }
+    }
+}
+
+// ------------------------------------------------------------------------------------------------
+// compute_checksum
+
+fn checksum_ref(b: &[u8]) -> u32 {
+    let mut padded = b.to_vec();
+    while padded.len() % 4 != 0 {
+        padded.push(0);
+    }
+    let mut sum = 0u64;
+    for q in padded.chunks(4) {
+        sum += u32::from_be_bytes([q[0], q[1], q[2], q[3]]) as u64;
+    }
+    sum as u32
+}
+
+fn run_checksum(ctx: &mut Ctx) {
+    let k = if ctx.thorough { 5 } else { 1 };
+    for len in 0..=40usize {
+        for style in 0..6 * k {
+            let v: Vec<u8> = match style % 6 {
+                0 => vec![0xFF; len],
+                1 => vec![0; len],
+                2 => (0..len).map(|i| i as u8 + 1).collect(),
+                3 => (0..len).map(|i| if i % 4 == 0 { 0x80 } else { 0 }).collect(),
+                _ => ctx.rng.bytes(len),
+            };
+            ctx.count(&format!("branch.checksum.rem{}", len % 4));
+            ask(ctx, format!("hc.cksum {}", hex(&v)), &v, || {
+                let mut out = Out::default();
+                let c = read_fonts::tables::compute_checksum(&v);
+                out.check("checksum-reference", c == checksum_ref(&v), || format!("{c} vs {}", checksum_ref(&v)));
+                out.resp = c.to_string();
+                out
+            });
+        }
+    }
+}
+
+// ------------------------------------------------------------------------------------------------
+// ArrayOfOffsets (STAT axis value array) / ArrayOfNullableOffsets (SequenceContextFormat1 rule sets)
+
+use read_fonts::tables::layout::SequenceContextFormat1;
+use read_fonts::tables::stat::AxisValueArray;
+
+fn axis_values_bytes(rng: &mut Rng) -> (u16, B) {
+    let n = rng.below(5) as usize;
+    let mut t = T::new();
+    for _ in 0..n {
+        match rng.below(8) {
+            0 => {
+                t.b.f16(0);
+            }
+            1 => {
+                t.b.f16(*rng.pick(&[1u16, 0xFFFF, 300]));
+            }
+            _ => {
+                let mut v = T::new();
+                let fmt = *rng.pick(&[1u16, 2, 3, 4, 4, 0, 5]);
+                v.b.u16(fmt);
+                match fmt {
+                    1 => words(rng, &mut v.b, 5),
+                    2 => words(rng, &mut v.b, 9),
+                    3 => words(rng, &mut v.b, 7),
+                    4 => {
+                        let k = rng.below(3) as u16;
+                        v.b.f16(k).u16(0).u16(256);
+                        words(rng, &mut v.b, 3 * k as usize);
+                    }
+                    _ => words(rng, &mut v.b, 3),
+                }
+                t.off(2, v);
+            }
+        }
+    }
+    (n as u16, t.flat())
+}
+
+fn rule_sets_bytes(rng: &mut Rng) -> B {
+    let n = rng.below(5) as u16;
+    let mut t = T::new();
+    t.b.u16(1).u16(0).f16(n);
+    for _ in 0..n {
+        match rng.below(6) {
+            0 | 1 => {
+                t.b.f16(0);
+            }
+            2 => {
+                t.b.f16(*rng.pick(&[1u16, 0xFFFF, 200]));
+            }
+            _ => {
+                let mut v = T::new();
+                let k = rng.below(3) as u16;
+                v.b.f16(k);
+                words(rng, &mut v.b, k as usize);
+                t.off(2, v);
+            }
+        }
+    }
+    t.flat()
+}
+
+fn arr_idxs(n: usize) -> Vec<usize> {
+    let mut v = vec![0, 1, n.wrapping_sub(1), n, n + 1, 0xFFFF, u32::MAX as usize, u32::MAX as usize + 1, u32::MAX as usize + 7, usize::MAX];
+    v.sort();
+    v.dedup();
+    v
+}
+
+fn run_arrays(ctx: &mut Ctx) {
+    let k = if ctx.thorough { 5 } else { 1 };
+    for _ in 0..10 * k {
+        let (n, b) = axis_values_bytes(&mut ctx.rng);
+        ctx.count("arr.bases");
+        for v in variants(&mut ctx.rng, &b, 4) {
+            for n in [n, n + 1] {
+                let idxs = arr_idxs(n as usize);
+                ask(ctx, format!("hc.arr {} {} {}", n, hex(&v), join(&idxs)), &v, || {
+                    let mut out = Out::default();
+                    let show = |r: Result<read_fonts::tables::stat::AxisValue, ReadError>| match r {
+                        Ok(a) => format!("f{}", a.format()),
+                        Err(e) => err_str(&e),
+                    };
+                    match AxisValueArray::read(FontData::new(&v), n) {
+                        Err(_) => out.resp = "rerr".into(),
+                        Ok(arr) => {
+                            let a = arr.axis_values();
+                            let its: Vec<String> = a.iter().take(n as usize + 2).map(show).collect();
+                            out.check("array-iter-len", its.len() == a.len() && a.len() == n as usize, || format!("{} items, len {}", its.len(), a.len()));
+                            let gets: Vec<String> = idxs.iter().map(|i| show(a.get(*i))).collect();
+                            out.check("array-get-in-range", idxs.iter().zip(&gets).all(|(i, g)| *i < a.len() || g.starts_with("eI")), || format!("{gets:?}"));
+                            out.resp = format!("{} {} | {}", its.len(), join(&its), join(&gets));
+                        }
+                    }
+                    out
+                });
+            }
+        }
+    }
+    for _ in 0..8 * k {
+        let b = rule_sets_bytes(&mut ctx.rng);
+        ctx.count("arrn.bases");
+        for v in variants(&mut ctx.rng, &b, 4) {
+            let n = be16(&v, 4).unwrap_or(0) as usize;
+            let idxs = arr_idxs(n);
+            ask(ctx, format!("hc.arrn {} {}", hex(&v), join(&idxs)), &v, || {
+                let mut out = Out::default();
+                let show = |r: Option<Result<read_fonts::tables::layout::SequenceRuleSet, ReadError>>| match r {
+                    None => "N".to_string(),
+                    Some(Ok(s)) => format!("ok{}", s.seq_rule_count()),
+                    Some(Err(e)) => err_str(&e),
+                };
+                match SequenceContextFormat1::read(FontData::new(&v)) {
+                    Err(_) => out.resp = "rerr".into(),
+                    Ok(t) => {
+                        let a = t.seq_rule_sets();
+                        let its: Vec<String> = a.iter().take(n + 2).map(show).collect();
+                        out.check("array-iter-len", its.len() == a.len() && a.len() == n, || format!("{} items, len {}", its.len(), a.len()));
+                        let gets: Vec<String> = idxs.iter().map(|i| show(a.get(*i))).collect();
+                        out.check("array-get-in-range", idxs.iter().zip(&gets).all(|(i, g)| *i < a.len() || g.starts_with("eI")), || format!("{gets:?}"));
+                        out.resp = format!("{} {} | {}", its.len(), join(&its), join(&gets));
+                    }
+                }
+                out
+            });
+        }
+    }
+}
+
+pub fn run(ctx: &mut Ctx) {
+    run_colr(ctx);
+    run_svg(ctx);
+    run_hdmx(ctx);
+    run_vorg(ctx);
+    run_meta(ctx);
+    run_checksum(ctx);
+    run_arrays(ctx);
+    // branch distribution of the array getters, from the recorded responses
+    let mut keys: Vec<String> = vec![];
+    for (req, resp) in &ctx.rec.cases {
+        if req.starts_with("hc.arr ") || req.starts_with("hc.arrn ") {
+            let cmd = if req.starts_with("hc.arrn") { "arrn" } else { "arr" };
+            for w in resp.split(' ') {
+                let k = if w.starts_with("eI") {
+                    "eI"
+                } else if w.starts_with("eF") {
+                    "eF"
+                } else if w.starts_with("ok") {
+                    "ok"
+                } else if w.starts_with('f') {
+                    "ok"
+                } else if w == "eO" || w == "eNull" || w == "N" || w == "rerr" {
+                    w
+                } else {
+                    continue;
+                };
+                keys.push(format!("branch.{cmd}.{k}"));
+            }
+        }
+    }
+    for k in keys {
+        ctx.count(&k);
+    }
+}
